@@ -156,6 +156,27 @@ fn main() {
             for (k, n) in v.iter().take(12) { println!("{n:5} {k}"); }
             0
         }
+        "poolstats" => {
+            // which rules of a candidate pool hang or crash the library on ordinary words
+            let d = gen::Data::load();
+            let mut o = oracle::Oracle::new(5);
+            let cands: Vec<String> = serde_json::from_str(&std::fs::read_to_string(&args[2]).unwrap()).unwrap();
+            for rule in cands {
+                let mut bad = 0;
+                let mut r = prng::Rng::new(11);
+                for _ in 0..150 {
+                    let w = gen::gen_word(&d, &mut r);
+                    let a = o.run(&oracle::Req { rules: vec![instance::Group::anon(vec![rule.clone()])], words: vec![w.clone()], into: vec![], from: vec![] });
+                    if matches!(a, oracle::Ans::Hang | oracle::Ans::Panic) {
+                        bad += 1;
+                        if bad == 1 { println!("  {a:?} on {w:?}"); }
+                        if matches!(a, oracle::Ans::Hang) && bad >= 2 { break; }
+                    }
+                }
+                println!("{bad:3} bad  {rule}");
+            }
+            0
+        }
         "wordstats" => {
             let d = gen::Data::load();
             let mut o = oracle::Oracle::new(5);
